@@ -23,6 +23,7 @@ MANIFEST = {
             "judged (the generator only uses the canonical NaN). Python objects cannot hold out-of-range values (C18 covers that). "
             "Cases where the own model and PyDSDL's codec disagree are not judged and make the run inconclusive.",
 }
+MANIFEST["text"] += ' The coverage corpus also holds types whose offsets share smallest and largest element but differ in alignment, arrays of 64 bytes and more that start off a byte boundary after non-zero bits, and the C option enable_override_variable_array_capacity is one of the code bases.'
 
 
 def judge_ser(ctx, base, t, label, v, vec, res, witness):
